@@ -15,7 +15,10 @@ from ..common import Check, pmap
 from ..layers import ABSENT, run_layers_case
 from ..pegcheck import conformance
 
-GAPS = ['', ' ', '\t', '\n', ' \t ', '#c\n', '(*c*)', ' (*c*) #d\n ', '#c\n#d\n', '(*c*)(*d*)', '(*c*)#d\n']
+GAPS = ['', ' ', '\t', '\n', ' \t ', '#c\n', '(*c*)', ' (*c*) #d\n ', '#c\n#d\n', '(*c*)(*d*)', '(*c*)#d\n',
+        # runs that are whitespace / comments only under the last two configurations: a whitespace definition that also matches a
+        # non-space character, and comment openers that begin like the token '+'
+        ',', ' , ', '++c\n', '+*c*+']
 
 
 def layouts(tokens, rnd, n):
@@ -75,6 +78,10 @@ CFGS = [
     ('namechars-plus', {'namechars': '+'}, {'namechars': "'+'"}, {}),
     ('ignorecase', {'ignorecase': True, 'eolc': '#', 'cmt': ('(*', '*)')},
      {'ignorecase': 'True', 'eol_comments': '/(?m)#.*?$/', 'comments': '/\\(\\*.*?\\*\\)/'}, {}),
+    ('ws-with-comma', {'ws': [' ', '\t', '\n', '\r', ','], 'eolc': '#', 'cmt': ('(*', '*)')},
+     {'whitespace': '/[\\s,]+/', 'eol_comments': '/(?m)#.*?$/', 'comments': '/\\(\\*.*?\\*\\)/'}, {}),
+    ('comments-opening-like-a-token', {'eolc': '++', 'cmt': ('+*', '*+')},
+     {'eol_comments': '/(?m)\\+\\+.*?$/', 'comments': '/\\+\\*.*?\\*\\+/'}, {}),
 ]
 
 
@@ -146,8 +153,8 @@ def run(tier):
     part_b(ck, tier)
     part_a(ck, tier)
     ck.cov['rule'] = ('(A) 11 token grammars (tokens, closure, named, pattern after token, pattern in lower-case rule, upper-case token '
-                      'rule, constant/void, lower-case rule calls, no $, name-like tokens) x 8 configurations (comments as directives / as '
-                      'settings, none, blank-only whitespace, whitespace off, nameguard off, namechars, ignorecase) x every layout of token '
+                      'rule, constant/void, lower-case rule calls, no $, name-like tokens) x 10 configurations (comments as directives / as '
+                      'settings, none, blank-only whitespace, whitespace off, nameguard off, namechars, ignorecase, whitespace that also matches a comma, comment openers that begin like a token) x every layout of token '
                       'sequences <=3 (+6) with every gap kind in every slot; model + generated parser.  (B) every combination of '
                       'compile/directive/parse layer values for 8 settings x {model, generated, tatsu.parse}. non-trivial = accepted layout '
                       'with distinct (grammar, cfg, AST) / a layer point with at least one layer present')
